@@ -17,6 +17,8 @@ import Mathlib.Algebra.Order.Archimedean.Basic
 import Mathlib.Algebra.Order.Field.Rat
 import Mathlib.Tactic.NormNum
 import HitenModel.Lemmas.REReal
+import HitenModel.Lemmas.Mirror
+import Mathlib.Tactic.FinCases
 import Mathlib.Tactic.Ring
 import Mathlib.Tactic.IntervalCases
 
@@ -539,6 +541,110 @@ theorem accel_reversible_xaxis (ρ : ℕ → ℝ) (i : ℕ) (hi : i < 6) :
   interval_cases i <;> simp only [accel, eval, h0, h1] <;> simp [rotX, sgnX] <;> ring
 
 end reversible
+
+/-! ### the mirror theorem, instantiated on the traced field
+
+`Lemmas/Mirror.lean` proves the mirror theorem for any reversible field (ODE uniqueness on a set where the field is Lipschitz).
+With `accel_reversible` its hypothesis holds for the field the correctors integrate: a solution that crosses the xz-plane
+perpendicularly (`y = v_x = v_z = 0`) at `t = 0` and at `t = T/2` is `T`-periodic — this is why `period = 2 · half_period` and why a
+converged correction (residual = the perpendicularity defect at the half-period event) is a periodic orbit.  The Lipschitz set `U`
+(a region away from the primaries in which the solution stays) is a hypothesis. -/
+
+section mirror
+open HitenModel.RE
+
+/-- environment of the traced field for a 6-vector state and a mass parameter (variables 0..5 = state, 6.. = `mu`) -/
+def envOf (mu : ℝ) (u : Fin 6 → ℝ) : ℕ → ℝ := fun k => if h : k < 6 then u ⟨k, h⟩ else mu
+
+/-- the traced vector field as a map of 6-vectors -/
+noncomputable def fieldOf (mu : ℝ) (u : Fin 6 → ℝ) : Fin 6 → ℝ := fun i => eval (envOf mu u) (accel i.val)
+
+/-- the reversing symmetry `S₁ = diag(1,−1,1,−1,1,−1)` as a continuous linear map -/
+noncomputable def S1 : (Fin 6 → ℝ) →L[ℝ] (Fin 6 → ℝ) :=
+  ContinuousLinearMap.pi fun i => (sgnXZ i.val) • ContinuousLinearMap.proj i
+
+theorem S1_apply (u : Fin 6 → ℝ) (i : Fin 6) : S1 u i = sgnXZ i.val * u i := by
+  simp [S1]
+
+theorem envOf_S1 (mu : ℝ) (u : Fin 6 → ℝ) : envOf mu (S1 u) = reflXZ (envOf mu u) := by
+  funext k
+  by_cases hk : k < 6
+  · simp only [envOf, hk, dif_pos, reflXZ, S1_apply, sgnXZ]
+    split_ifs <;> simp
+  · have h1 : ¬ (k = 1 ∨ k = 3 ∨ k = 5) := by omega
+    simp [envOf, hk, reflXZ, h1]
+
+/-- the traced field is reversed by `S₁`: `f(S₁ u) = −S₁ f(u)` -/
+theorem field_reversing (mu : ℝ) (u : Fin 6 → ℝ) : fieldOf mu (S1 u) = -(S1 (fieldOf mu u)) := by
+  funext i
+  simp only [fieldOf, Pi.neg_apply, S1_apply, envOf_S1]
+  exact accel_reversible (envOf mu u) i.val i.isLt
+
+/-- a state is fixed by `S₁` iff it is a perpendicular crossing of the xz-plane: `y = v_x = v_z = 0` -/
+theorem S1_fixed_of_perpendicular (u : Fin 6 → ℝ) (h : u 1 = 0 ∧ u 3 = 0 ∧ u 5 = 0) : S1 u = u := by
+  funext i
+  rw [S1_apply]
+  fin_cases i <;> simp [sgnXZ, h.1, h.2.1, h.2.2]
+
+/-- **perpendicular_crossings_give_periodic_orbit** (mirror theorem on the traced field): a solution of the traced equations of motion
+(constant `mu`) that stays in a region `U` — invariant under the reflection, field Lipschitz on it — and crosses the xz-plane
+perpendicularly at `t = 0` and at `t = T/2` is periodic with period `T`. -/
+theorem perpendicular_crossings_give_periodic_orbit (mu : ℝ) (U : Set (Fin 6 → ℝ)) (K : NNReal)
+    (hL : LipschitzOnWith K (fieldOf mu) U) (hSU : ∀ u ∈ U, S1 u ∈ U)
+    (x : ℝ → Fin 6 → ℝ) (hx : ∀ t, HasDerivAt x (fieldOf mu (x t)) t) (hxU : ∀ t, x t ∈ U) (T : ℝ)
+    (h0 : x 0 1 = 0 ∧ x 0 3 = 0 ∧ x 0 5 = 0) (hh : x (T / 2) 1 = 0 ∧ x (T / 2) 3 = 0 ∧ x (T / 2) 5 = 0) (t : ℝ) :
+    x (t + T) = x t :=
+  HitenModel.Mirror.mirror_theorem hL S1 hSU (fun u _ => field_reversing mu u) hx hxU T
+    (S1_fixed_of_perpendicular _ h0) (S1_fixed_of_perpendicular _ hh) t
+
+/-- the second reversing symmetry `S₂ = diag(1,−1,−1,−1,1,1)` (rotation by π about the x-axis) as a continuous linear map -/
+noncomputable def S2 : (Fin 6 → ℝ) →L[ℝ] (Fin 6 → ℝ) :=
+  ContinuousLinearMap.pi fun i => (sgnX i.val) • ContinuousLinearMap.proj i
+
+theorem S2_apply (u : Fin 6 → ℝ) (i : Fin 6) : S2 u i = sgnX i.val * u i := by
+  simp [S2]
+
+theorem envOf_S2 (mu : ℝ) (u : Fin 6 → ℝ) : envOf mu (S2 u) = rotX (envOf mu u) := by
+  funext k
+  by_cases hk : k < 6
+  · simp only [envOf, hk, dif_pos, rotX, S2_apply, sgnX]
+    split_ifs <;> simp
+  · have h1 : ¬ (k = 1 ∨ k = 2 ∨ k = 3) := by omega
+    simp [envOf, hk, rotX, h1]
+
+theorem field_reversing_xaxis (mu : ℝ) (u : Fin 6 → ℝ) : fieldOf mu (S2 u) = -(S2 (fieldOf mu u)) := by
+  funext i
+  simp only [fieldOf, Pi.neg_apply, S2_apply, envOf_S2]
+  exact accel_reversible_xaxis (envOf mu u) i.val i.isLt
+
+/-- a state is fixed by `S₂` iff it is a perpendicular crossing of the x-axis: `y = z = v_x = 0` -/
+theorem S2_fixed_of_perpendicular (u : Fin 6 → ℝ) (h : u 1 = 0 ∧ u 2 = 0 ∧ u 3 = 0) : S2 u = u := by
+  funext i
+  rw [S2_apply]
+  fin_cases i <;> simp [sgnX, h.1, h.2.1, h.2.2]
+
+theorem S2_S1_involution (u : Fin 6 → ℝ) : S2 (S1 (S2 (S1 u))) = u := by
+  funext i
+  simp only [S1_apply, S2_apply]
+  fin_cases i <;> simp [sgnX, sgnXZ]
+
+/-- **vertical_quarter_period** (the doubly symmetric vertical family, repaired in /repo by e02818a): a solution that starts
+perpendicular to the xz-plane (`y = v_x = v_z = 0`) and crosses the x-axis perpendicularly (`y = z = v_x = 0`) at the time `t_q` of its
+`z = 0` event is periodic with period `4 t_q` — the event is a quarter period, and after `2 t_q` the state is the mirror image
+`S₂ S₁ x₀` (z and v_z flipped), not `x₀`: the defect of reporting `2 t_q`. -/
+theorem vertical_quarter_period (mu : ℝ) (U : Set (Fin 6 → ℝ)) (K : NNReal)
+    (hL : LipschitzOnWith K (fieldOf mu) U) (hSU₁ : ∀ u ∈ U, S1 u ∈ U) (hSU₂ : ∀ u ∈ U, S2 u ∈ U)
+    (x : ℝ → Fin 6 → ℝ) (hx : ∀ t, HasDerivAt x (fieldOf mu (x t)) t) (hxU : ∀ t, x t ∈ U) (tq : ℝ)
+    (h0 : x 0 1 = 0 ∧ x 0 3 = 0 ∧ x 0 5 = 0) (hq : x tq 1 = 0 ∧ x tq 2 = 0 ∧ x tq 3 = 0) (t : ℝ) :
+    x (t + 2 * tq) = S2 (S1 (x t)) ∧ x (t + 4 * tq) = x t := by
+  have hq' : S2 (x (4 * tq / 4)) = x (4 * tq / 4) := by
+    rw [show 4 * tq / 4 = tq by ring]; exact S2_fixed_of_perpendicular _ hq
+  have := HitenModel.Mirror.mirror_theorem_quarter hL S1 S2 hSU₁ hSU₂ (fun u _ => field_reversing mu u)
+    (fun u _ => field_reversing_xaxis mu u) S2_S1_involution hx hxU (4 * tq) (S1_fixed_of_perpendicular _ h0) hq' t
+  rw [show 4 * tq / 2 = 2 * tq by ring] at this
+  exact this
+
+end mirror
 
 /-! ### the driver executes the model the theorems are about -/
 
